@@ -84,7 +84,7 @@ def build_events(desc, shift=0, session_order=None, queue=None):
 
 def start_of(desc):
     st = desc.get("start", [2020, 1, 1, 0, 0])
-    dt = datetime(*st[:5])
+    dt = datetime(*st[:7])  # [y, m, d, H, M] or with seconds and microseconds
     if desc.get("tz"):
         import pytz
         dt = pytz.timezone(desc["tz"]).localize(dt)
